@@ -10,6 +10,7 @@ Driver ops of the I/O layer (C06, C12).  Strings travel as length-prefixed code 
   wlatexdoc <cls> <formula> <names> <hdr> <exportHeader> <extra> → OK <text> | ERR KeyError
   latexrows <cls> <formula> <names> <split> <compact> → OK <rows-agree> <blocks>
   rlatexrow <cls> <names> <compact> <text>   → OK <clause | constraint> | ERR ValueError
+  rlatexbody <cls> <names> <text>            → OK <clauses | constraints> | ERR ValueError   (reader of a whole body text)
   guessfmt <name?> <request?>                → OK <fmt> | ERR ValueError
 -/
 import CnfgenModel.Driver.Util
@@ -104,6 +105,10 @@ def handle (opname : String) (a : Args) : Option String :=
       let row := lexLatexLine s
       if cls == 0 then pure (fmtExcept fmtInts (readClauseRow ns row))
       else pure (fmtExcept fmtPBC (readConstraintRow ns row))) a
+  | "rlatexbody" => run (do
+      let cls ← int; let ns ← names; let s ← cstr
+      if cls == 0 then pure (fmtExcept fmtClauses (readLatexClausesText ns s))
+      else pure (fmtExcept fmtPBCs (readLatexConstraintsText ns s))) a
   | "guessfmt" => run (do
       let f ← fileArg; let r ← optOf cstr
       pure (fmtExcept (fun x => x.name) (guessOutputFormat f r) ++ " | " ++
